@@ -327,6 +327,30 @@ class Evaluator:
         elif isinstance(target, ast.Subscript):
             base = dotted(target.value)
             idx = ast.unparse(target.slice)
+            cur = self.env.get(base) if base else None
+            if isinstance(cur, tuple) and not aug:
+                pos = _vec_index(tuple(range(len(cur))), target.slice)
+                if isinstance(pos, int):
+                    lst = list(cur)
+                    lst[pos] = v
+                    self.env[base] = tuple(lst)
+                    self.stores.append((base, idx, v, st))
+                    return
+                if isinstance(pos, tuple) and isinstance(v, tuple) and len(pos) == len(v):
+                    lst = list(cur)
+                    for p_, x_ in zip(pos, v):
+                        lst[p_] = x_
+                    self.env[base] = tuple(lst)
+                    self.stores.append((base, idx, v, st))
+                    return
+            if isinstance(cur, tuple) and aug:
+                pos = _vec_index(tuple(range(len(cur))), target.slice)
+                if isinstance(pos, int):
+                    lst = list(cur)
+                    lst[pos] = v
+                    self.env[base] = tuple(lst)
+                    self.stores.append((base, idx, v, st))
+                    return
             self.stores.append((base, idx, v, st))
             if base is not None and base not in self.pinned and self.store_accept(base, idx, st):
                 self.env[base] = v
